@@ -114,7 +114,7 @@ pub struct MemCfg {
 impl MemCfg {
     pub fn line(&self) -> String {
         format!(
-            "cfg domain=mem algo={} impl={} shards={} cap={} keys={} hmode={} hp_bits={} s3_small_bits={} s3_ghost_bits={} s3_thr={} lfu_window_bits={} lfu_protected_bits={}",
+            "cfg domain=mem algo={} impl={} shards={} cap={} keys={} hmode={} hp_bits={} s3_small_bits={} s3_ghost_bits={} s3_thr={} lfu_window_bits={} lfu_protected_bits={} cm_rows={} cm_buckets={}",
             self.algo,
             self.imp,
             self.shards,
@@ -127,6 +127,8 @@ impl MemCfg {
             self.s3_thr,
             self.lfu_window.to_bits(),
             self.lfu_protected.to_bits(),
+            datasketches::countmin::CountMinSketch::<u16>::suggest_num_hashes(0.9),
+            datasketches::countmin::CountMinSketch::<u16>::suggest_num_buckets(0.001),
         )
     }
 
